@@ -261,7 +261,11 @@ def worker(args):
     for h in chunk:
         for variant in range(variants):
             with numpy.errstate(all="ignore"):
-                r, c = run_history(h, classes, number, mode, variant)
+                try:
+                    r, c = run_history(h, classes, number, mode, variant)
+                except Exception as ex:
+                    from . import common as _c
+                    r, c = [_c.crash_record("history", ex, history={"init": h["init"], "steps": [{k: s_[k] for k in ("kind", "name", "arg")} for s_ in h["steps"]]})], 0
             out["records"] += r
             out["calls"] += c
         out["histories"] += 1
@@ -500,8 +504,12 @@ def sympy_setters():
                 names = [nm for nm in SYN if GROUP_OF[nm] in (["az"] + (["lon"] if n > 2 else []) + (["tmp"] if n > 3 else []))]
                 for name in names:
                     for attr in (SYN[name] if flavor == "momentum" else SYN[name][:1]):
-                        v, syms = sympyx.sym_vector("a", sig, flavor, by_keywords=(len(attr) % 2 == 0))
                         base = {"op": f"set:{attr}", "tag": "objsm-sympy", "sig": [sig, None], "flavor": flavor}
+                        try:
+                            v, syms = sympyx.sym_vector("a", sig, flavor, by_keywords=(len(attr) % 2 == 0))
+                        except Exception as ex:
+                            recs.append(dict(base, kind="exception", error=f"symbolic operand cannot be constructed: {type(ex).__name__}: {ex}"[:200]))
+                            continue
                         point = dict(zip(syms, coords.store(point4[:n], sig)))
                         new = sympy.Symbol("new_value", real=True)
                         point[new] = newval[name]
